@@ -215,3 +215,21 @@ def canon_case(case):
             if inv.get("dest") is not None:
                 inv["dest"] = canon(inv["dest"])
     return case
+
+
+def mount_op(path):
+    """a second file system (its own st_dev) mounted inside the sandbox"""
+    return {"op": "mount", "p": path}
+
+
+FIEMAP_FLAGBITS = [0x800, 0x4, 0x1000, 0x2000, 0x100, 0x800 | 0x4]  # UNWRITTEN, DELALLOC, MERGED, SHARED, NOT_ALIGNED
+
+
+def swarm_flags(r, flags, allow=("fsync", "no_perms", "no_timestamps", "ownership", "reflink", "no_progress"), p=0.12):
+    """swarm-style option diversity: each harmless option is switched on independently with small probability"""
+    for k in allow:
+        if k in flags:
+            continue
+        if r.random() < p:
+            flags[k] = r.choice(["auto", "never"]) if k == "reflink" else True
+    return flags
